@@ -45,9 +45,9 @@ META = {
     'functions_encoded': ['numdifftools.extrapolation.EpsAlg.__call__', 'numdifftools.extrapolation.Dea.__init__/limexp/'
                           '__call__/_dea/_shift_table/_update_res3la', 'numdifftools.extrapolation.dea3 (comparison)'],
     'bounds': {'quick': 'EpsAlg k<=2 transients (5 terms), Shanks table up to 5 terms; Dea limexp in {3,5,7}',
-               'thorough': 'EpsAlg k<=3 (7 terms); Dea limexp odd 3..13'},
-    'outside_claim': ['EpsAlg on the degenerate branch (a vanishing table difference) and beyond k=3',
-                      'Dea limexp > 13 (7 quick); agreement of Dea with the epsilon table beyond limexp 7 / on paths where a guard fired; finiteness in IEEE arithmetic'],
+               'thorough': 'EpsAlg as quick; Dea limexp odd 3..9'},
+    'outside_claim': ['EpsAlg on the degenerate branch (a vanishing table difference) and beyond k=2 (k=3 does not finish: > 25 min per obligation)',
+                      'Dea limexp > 9 (7 quick); agreement of Dea with the epsilon table beyond limexp 5 / on paths where a guard fired; finiteness in IEEE arithmetic'],
     'stubs': ['module global np -> symbolic numpy proxy', 'builtin max -> merged symbolic max (If term)',
               'division by a symbolic table difference -> uninterpreted reciprocal (sound over-approximation of control flow)',
               'Dea.epstab replaced by an index-recording object array of fresh symbols (arbitrary table)',
@@ -60,10 +60,11 @@ META = {
 def jobs(tier, seed):
     th = tier == 'thorough'
     out = []
-    for k in ((1, 2, 3) if th else (1, 2)):
+    # k = 3 (7 symbolic terms, 4x4 Hankel determinants) was tried for the thorough tier: each obligation ran > 25 min
+    for k in (1, 2):
         out.append(('epsalg-transients-k%d' % k, dict(kind='eps_geo', k=k, limexp=0)))
-    out.append(('epsalg-shanks-table', dict(kind='eps_shanks', k=3 if th else 2, limexp=0)))
-    for lim in (range(3, 14, 2) if th else (3, 5, 7)):
+    out.append(('epsalg-shanks-table', dict(kind='eps_shanks', k=2, limexp=0)))
+    for lim in (range(3, 10, 2) if th else (3, 5, 7)):
         # every control state that satisfies the invariant n <= limexp-1 (reachability is decided in postprocess)
         for n in range(0, lim):
             for nr in range(0, 4):
@@ -71,7 +72,7 @@ def jobs(tier, seed):
                     continue
                 out.append(('dea-limexp%d-n%d-nres%d' % (lim, n, nr), dict(kind='dea', k=n * 10 + nr, limexp=lim)))
     out.append(('dea-first-three', dict(kind='dea3cmp', k=0, limexp=5)))
-    for lim, nterms in (((3, 7), (5, 9), (7, 10)) if th else ((3, 7), (5, 9))):
+    for lim, nterms in ((3, 7), (5, 9)):
         for fam in range(len(SHANKS_FAMILIES)):
             out.append(('dea-shanks-limexp%d-f%d' % (lim, fam), dict(kind='dea_shanks', k=nterms * 10 + fam, limexp=lim)))
     return out
@@ -407,19 +408,28 @@ def dea_first_three(job, ex):
         outs = p.result
         job.prove('first term returned as is', sn.lift(outs[0][0]) == s[0].t, p.conds(), dict(key='C14:Dea:first-term', kind='dea3cmp'))
         job.prove('second term returned as is', sn.lift(outs[1][0]) == s[1].t, p.conds(), dict(key='C14:Dea:second-term', kind='dea3cmp'))
-        # third: same functional form as dea3 up to the two regularisers: with recip abstracted,
-        #   Dea : e1 + recip(recip(e1-HUGE) + recip(d2) - recip(d3))   dea3: e1 + recip(recip(d2) - recip(d1) + TINY)
-        # agreement is asserted under the hypothesis that both regularisers vanish (|.| < 1e-307 in reality)
+        # third term: the documented three-term rule, restated here from the inputs (it is dea3's): with
+        #   sss = 1/(s2-s1) - 1/(s1-s0)
+        # the raw term s2 is returned when a difference is at rounding level or |sss*s1| <= 1e-4 (irregular behaviour),
+        # otherwise s1 + 1/sss.  Reciprocals are uninterpreted (the same rc terms on both sides); Dea's regulariser
+        # 1/(s1 - HUGE) is assumed to vanish (|.| < 1e-307 in reality).
         rc = sn.uninterpreted('recip')
-        tiny = sn.ratval(float(np.finfo(float).tiny))
         hyp = [rc(s[1].t - huge) == 0]
         res = sn.lift(outs[2][0])
-        d3res = sn.lift(r3[0])
-        d3_noreg = z3.substitute(d3res, (tiny, z3.RealVal(0)))
-        conv = z3.Or(res == s[2].t, res == s[1].t, d3_noreg == s[2].t)   # a guard / convergence fallback was taken
-        job.prove('third term agrees with dea3 outside the guards', z3.Or(conv, res == d3_noreg), p.conds() + hyp,
-                  dict(key='C14:Dea:third-term-differs-from-dea3', kind='dea3cmp'), mandatory=False)
-
+        d_new, d_old = s[2].t - s[1].t, s[1].t - s[0].t
+        eps = sn.ratval(float(np.finfo(float).eps))
+        ab = cm.zabs
+        mx = lambda a, b: z3.If(ab(a) >= ab(b), ab(a), ab(b))  # noqa
+        sss = rc(d_new) - rc(d_old)
+        fallback = z3.Or(ab(d_new) <= eps * mx(s[2].t, s[1].t), ab(d_old) <= eps * mx(s[1].t, s[0].t), ab(sss * s[1].t) <= sn.ratval(1e-4))
+        spec = z3.If(fallback, s[2].t, s[1].t + rc(sss))
+        # magnitudes far below the overflow threshold (otherwise Dea's comparison with its initial error HUGE decides)
+        big = sn.ratval(1e100)
+        hyp += [ab(v.t) <= big for v in s] + [ab(rc(sss)) <= big]
+        job.prove('third term follows the documented three-term rule (same guards as dea3)', res == spec, p.conds() + hyp,
+                  dict(key='C14:Dea:third-term-differs-from-dea3', kind='dea3cmp'))
+    # (the same rule is proven for the real dea3 by the C13 obligations 'documented guards decide between Shanks value and
+    # fallback', so "agrees with dea3" is closed on both sides)
 
 
 # --------------------------------------------------------------------------
@@ -792,7 +802,10 @@ def replay(cex):
             return True, 'Dea(limexp=%d) on family %s: %s' % (limexp, fam, detail)
         return None, 'abstract control-graph counterexample %s not realised by the sequence families' % key
     if kind == 'dea3cmp':
-        for seq in ([1.5, 1.25, 1.125], [2.0, 1.0, 1.75], [0.3, 0.9, 0.5]):
+        asg = cm.assignment_from_model(cex.get('model', {}))
+        cand = [[float(asg.get('s%d' % i, 0.0)) for i in range(3)]] if asg else []
+        for seq in cand + [[1.5, 1.25, 1.125], [2.0, 1.0, 1.75], [0.3, 0.9, 0.5], [0.75, 0.25, 0.0], [3.0, 1.0, 0.0], [-1.0, 0.0, 2.0],
+                           [0.0, 1.0, 3.0], [1.0, 1.0, 2.0], [5.0, 1e-5, 3.0], [2.0, 3.0, 1e-6]]:
             d = ex.Dea(limexp=5)
             outs = [d(v) for v in seq]
             r3, e3 = ex.dea3(*seq)
